@@ -232,6 +232,9 @@ def main(argv):
     try:
         base_obligations(ctx, clean=(tier == "thorough"))
         mod = importlib.import_module(f"props.{pid.lower()}")
+        # the judged cases never run in a freshly imported package: see vcommon/noise.py
+        from vcommon import noise
+        ctx.extra["prelude_before_the_cases"] = noise.exercise()
         mod.run(ctx)
         broken = any(not ok for _, ok, _ in ctx.obligations) or any(ms for _, _, ms in ctx.corr)
         if broken and not ctx.failures and hasattr(mod, "search"):
